@@ -33,6 +33,7 @@ from cnfgen.graphs import CompleteBipartiteGraph
 
 from cnfgen.formula.basecnf import BaseCNF
 from cnfgen.formula.linear import CNFLinear
+from cnfgen import _verif
 
 class BaseVariableGroup():
     """Base object for variable groups
@@ -1518,6 +1519,8 @@ class VariablesManager:
 
         begin, end = vg[0], vg[-1]
         assert end >= begin
+        if _verif.ENABLED:
+            _verif.note_group(self._formula, begin, end)
         if begin <= self._formula.number_of_variables():
             raise ValueError(
                 "The new variable group must not overlaps old variables")
